@@ -14,6 +14,8 @@ at the 1e-9..1e-2 quantiles, and live drivers are re-tuned (delta, temperature, 
 between steps.
 The density clause is also run for the adaptive driver (range collapsed to one delta), at temperatures far from any
 default and with two mass classes.
+Seven more density shards have biases that are tiny but not zero (2e-10 <= |gamma| <= 1e-5); the closed-form CDF is
+evaluated in a rearranged form that is accurate for any gamma > 0.
 """
 from __future__ import annotations
 
@@ -27,12 +29,14 @@ LEVEL = "exploration"
 RULE = (
     "one evaluation = one ForceBias/AdaptiveForceBias step on seeded (forces incl. 1e-300..1e300, zeros, mixed signs; delta scalar or per-coordinate; T; masses; "
     "mass-scaling power scalar/dict/array); distinct by (force magnitude decade, delta kind, power kind, T decade, driver); non-trivial when at least one force component is non-zero. "
-    "Density: i.i.d. zeta_obs pooled over steps with one force value on all coordinates, per |gamma| in {1e-3,0.1,1,5,50,709.78} and both signs"
+    "Density: i.i.d. zeta_obs pooled over steps with one force value on all coordinates, per |gamma| in {2e-10 .. 1e-5 (seven values), 1e-3,0.1,1,5,50,709.78,1e5} and both signs"
 )
 ASSUMPTIONS = [
     "zeta_obs tolerance: 1e-12 relative plus 8 ulp of the position (positions + displacement is rounded)",
     "termination restated as a bound: at most 200 resampling rounds per step (the correct algorithm needs more with probability < 2^-190); wall-clock watchdog firing = inconclusive",
-    "density clause judged for |gamma| >= 1e-3 only (statement: above rounding level); at zero force only bound, symmetry-free, and termination are judged",
+    "density clause judged for |gamma| >= 2e-10 ('above rounding level' read as: where the cancellation error eps/|gamma| of the published formula in float64 is below 1e-6); "
+    "on the pinned code the law departs from the density below |gamma| ~ 1e-14 and is the uniform one below 1e-16, where e^gamma - e^-gamma rounds to zero (observed, inside the statement's exclusion, not alarmed); "
+    "at zero force only bound, symmetry-free, and termination are judged",
 ]
 REQUIRED = {"steps_after_retuning": 200, "tail_tests": 10, "steps": 1500, "steps_huge_force": 100, "steps_zero_force": 50, "steps_per_coordinate_delta": 100, "ks_tests": 12, "adaptive_steps": 50, "masses_updated_after_construction": 100}
 SHARD_TIMEOUT = {"quick": 900, "thorough": 3000}
@@ -55,6 +59,10 @@ def plan(tier, seed):
     # temperatures far from any default, and for the plain driver at a second temperature
     for g, T, adaptive in ((1.0, 3000.0, True), (-5.0, 40.0, True), (5.0, 2500.0, False), (-1.0, 25.0, False)):
         specs.append({"name": f"density-g{g:g}-T{T:g}-{'adaptive' if adaptive else 'plain'}", "mode": "density", "gamma": g, "T": T, "adaptive": adaptive, "seed": seed, "n": 100000 if tier == "quick" else 1000000})
+    # biases that are tiny but not zero (nearly relaxed or high-symmetry sites, very small delta, very high temperature):
+    # the density is the triangular one to within the bias itself, which any "is this zero?" shortcut must not replace
+    for g in (1e-5, -1e-6, 1e-7, -3e-8, 3e-9, -1e-9, 2e-10):
+        specs.append({"name": f"density-tiny-g{g:g}", "mode": "density", "gamma": g, "tiny": True, "seed": seed, "n": 60000 if tier == "quick" else 600000})
     for j in range(8 if tier == "quick" else 32):
         specs.append({"name": f"hostile{j}", "mode": "hostile", "j": j, "seed": seed, "cases": 400 if tier == "quick" else 6000})
     return specs
@@ -65,10 +73,26 @@ def bn_cdf(z, g):
     """CDF of the Bal-Neyts density on [-1,1] for gamma=g (stable for |g| up to 1e308)."""
     z = np.asarray(z, dtype=float)
     if g < 0:
-        return 1.0 - bn_cdf(-z, -g)
-    if g < 1e-7:
-        # triangular limit with first-order tilt: p(z) = 1-|z| + g*(...) ; tilt is below resolution
-        return np.where(z < 0, 0.5 * (1 + z) ** 2, 1 - 0.5 * (1 - z) ** 2)
+        return np.clip(1.0 - bn_cdf(-z, -g), 0.0, 1.0)
+    if g < 1e-100:
+        return np.where(z < 0, 0.5 * (1 + z) ** 2, 1 - 0.5 * (1 - z) ** 2)  # the triangular limit (the tilt is of order g)
+    if g < 0.25:
+        # small bias: the closed form below loses eps/g to cancellation; the same expression rearranged so that every
+        # difference is taken analytically (h(x) = e^x - 1 - x by its series), accurate to rounding for any g > 0
+        a = 2 * g
+        D = -np.expm1(-a)
+
+        def h(x):
+            x = np.asarray(x, dtype=float)
+            ser = sum(x ** (k + 2) / math.factorial(k + 2) for k in range(14))
+            return np.where(np.abs(x) < 0.5, ser, np.expm1(x) - x)
+
+        zn = np.minimum(z, 0.0)
+        zp = np.maximum(z, 0.0)
+        Fneg = math.exp(-a) * h(a * (zn + 1)) / (a * D)
+        F0 = math.exp(-a) * float(h(a)) / (a * D)
+        Fpos = F0 + (-h(a * zp) - np.expm1(-a) * np.expm1(a * zp)) / (a * D)
+        return np.where(z < 0, Fneg, Fpos)
     # scale numerator and denominator by exp(-g)
     D = -np.expm1(-2 * g)  # 1 - e^{-2g}
     e2 = math.exp(-2 * g) if g < 700 else 0.0
